@@ -25,11 +25,14 @@ ASSUMPTIONS = [
     "default_proc_name and config are excluded from the 'untouched' comparison: the positional application argument sets the former",
     "booleans on the command line can only express their store_true/store_const value",
     "--paste on the command line / in GUNICORN_CMD_ARGS is not exercised (it imports paste.deploy, not installed in this sandbox)",
-    "derived accessors (cfg.worker_class, cfg.sendfile, ...) are not part of the statement and not compared",
+    "derived accessors (cfg.sendfile, cfg.address, ...) are not part of the statement and not compared, except the resolved worker class "
+    "for worker_class in {sync, gthread} (documented: sync with threads > 1 runs the threaded worker), which must follow the effective "
+    "worker_class/threads of this load whatever earlier loads in the same process resolved",
 ]
 BUDGET = {"quick": (16, 120), "thorough": (16, 10000)}
 
 SOURCES = ("cli", "env", "file", "dict")     # most authoritative first
+SYNCISH = ("sync", "gunicorn.workers.sync.SyncWorker")
 _state = {}
 
 
@@ -96,7 +99,8 @@ def build_families(scratch, config, util):
             bad = [(123, None), (["x"], None), (("import", "os", "getcwd"), None)]
         elif vname == "validate_class":
             if name == "worker_class":
-                vals = [("gthread", cli1("gthread")), ("gevent", cli1("gevent"))]
+                vals = [("gthread", cli1("gthread")), ("gevent", cli1("gevent")), ("sync", cli1("sync")),
+                        ("gunicorn.workers.sync.SyncWorker", cli1("gunicorn.workers.sync.SyncWorker"))]
             else:
                 vals = [("gunicorn.glogging.Logger", cli1("gunicorn.glogging.Logger")),
                         ("gunicorn.instrument.statsd.Statsd", cli1("gunicorn.instrument.statsd.Statsd"))]
@@ -252,7 +256,12 @@ def load(g, mentions, config_flags=None):
             app = App("%(prog)s [OPTIONS] [APP_MODULE]", prog="gunicorn")
         except SystemExit as e:
             return "exit", (e.code if isinstance(e.code, int) else 1)
-        return "ok", {k: v.get() for k, v in app.cfg.settings.items()}
+        res = {k: v.get() for k, v in app.cfg.settings.items()}
+        # the one derived value the settings documentation itself defines: sync with threads > 1 runs the threaded worker
+        # (only read for sync/gthread: resolving an async class would monkey-patch this process)
+        if res.get("worker_class") in SYNCISH + ("gthread",):
+            res["__worker_class_resolved__"] = app.cfg.worker_class.__name__
+        return "ok", res
     finally:
         sys.stderr, sys.stdout = old[4], old[5]
         os.chdir(old[0])
@@ -415,6 +424,12 @@ def run_case(case):
               {"setting": name, "got": repr(got), "mentions": {s: repr(mentions[s][name][0]) for s in mentions if name in mentions[s]}},
               {"want": repr(want), "from": winner})
             break
+    if not vio and "__worker_class_resolved__" in res:
+        want_cls = "ThreadWorker" if (res["worker_class"] == "gthread" or res["threads"] > 1) else "SyncWorker"
+        if res["__worker_class_resolved__"] != want_cls:
+            V("effective-after-normalisation", "resolved-worker-class-differs-from-effective-settings",
+              {"worker_class": res["worker_class"], "threads": res["threads"], "resolved": res["__worker_class_resolved__"], "mentions": _brief(mentions)},
+              want_cls)
     if not vio:
         for name, dv in g["defaults"].items():
             if name in expected or name in ("default_proc_name", "config"):
